@@ -4,6 +4,7 @@ import Nsq.Model.GuidClock
 import Nsq.Model.Num
 import Nsq.Model.PQ
 import Nsq.Model.Timing
+import Nsq.Model.TimingOpts
 import Nsq.Model.Wire
 /-! Driver for engine E1 (codec / numeric / timing): one operation per input line, one canonical
 answer line out. The only state kept between lines is the channel of the `ch …` operations. -/
@@ -134,6 +135,10 @@ def stepLine (line : String) : String :=
     | some node, some seq, some lastTs, some lastID, some t0, some tss =>
       Nsq.Model.GuidClock.genidsAnswer node seq lastTs lastID t0 tss
     | _, _, _, _, _, _ => "bad-op"
+  | ["optcheck", fixed, mt, max] =>
+    match mt.toInt?, max.toInt? with
+    | some mt, some max => Nsq.Model.TimingOpts.optcheckAnswer (fixed == "1") mt max
+    | _, _ => "bad-op"
   | ["hex", g] =>
     match bv64 g with
     | some g => bytesToString (Nsq.Model.Guid.hex g)
